@@ -22,7 +22,8 @@ META = {
         'over triples (they follow from D1+D2 for a lexicographic comparison; that step is not mechanised).'
         ' Also (D2): each operand of _cmp is padded by its OWN length.'
         ' Also (D2): no strip/rstrip/lstrip with a multi-character set containing a digit on version text; suffixes are ordered by ONE criterion (a derived-value comparison next to the text comparison is a violation).'
-        ' Also (D1): every way out of a comparison operator is decided by _cmp.'),
+        ' Also (D1): every way out of a comparison operator is decided by _cmp.'
+        ' Round 9: (D3) == is not coarser than hash: suffixes compared through a forgetting function (int of embedded digits, case fold, strip) while __hash__ hashes the raw suffix is a violation; (D4) nearest() keeps no memo keyed by the numeric groups alone and no two-slot memo.'),
     'rule_text': 'obligations = operator thresholds (6), _cmp decision-table cells (3 numeric orderings x 9 suffix '
                  'pairs), padding/int/coercion facts, hash form, nearest() returns and scan order',
     'trusted_base': ['lexicographic lift: a for-loop over zip() of equal-length tuples whose body returns on the '
